@@ -935,7 +935,181 @@ class Requests(Suite):
         return sum(t["n"] for g in case["groups"] for t in g) >= 6
 
 
-SUITES = [Features(), Angles(), Closed(), ShollNear(), Requests()]
+ROW_FEATURES = ["length", "node_count", "tip_count", "furcation_count", "node_radial_distance", "node_branch_order", "tip_radial_distance",
+                "furcation_radial_distance", "branch_length", "branch_tortuosity", "path_length", "path_tortuosity"]
+ROW_ORDERED = {"node_radial_distance"}       # one value per node, in node order; the others are compared as multisets
+
+
+def definition_vectors(t):
+    """the value vector of every named feature of ONE tree, straight from the definitions (`truth`); a vector may be EMPTY: a tree
+    without a furcation has no furcation radial distance, a single-node tree has no branch"""
+    tr = truth(t)
+    n = t["n"]
+    nk = [t["pids"].count(i) for i in range(n)]
+    return {"length": [tr["length"]], "node_count": [float(n)], "tip_count": [float(tr["counts"]["tip"])], "furcation_count": [float(tr["counts"]["furcation"])],
+            "node_radial_distance": list(tr["radial"]), "node_branch_order": sorted(float(o) for _, o in tr["bt_order"]),
+            "tip_radial_distance": sorted(tr["radial"][i] for i in range(n) if nk[i] == 0),
+            "furcation_radial_distance": sorted(tr["radial"][i] for i in range(n) if nk[i] > 1),
+            "branch_length": tr["branch_length"], "branch_tortuosity": tr["branch_tortuosity"],
+            "path_length": tr["path_length"], "path_tortuosity": tr["path_tortuosity"]}
+
+
+class PopulationRows(Suite):
+    """"one zero-padded row per tree for a population", over populations whose trees have value vectors of DIFFERENT and of ZERO length:
+    single-node trees (no branch, no furcation), unbranched neurites (no furcation), branching trees — populations made of one kind
+    only (every vector of a feature empty: the answer is N rows of width 0), and mixed ones (empty rows next to long ones).  Every named
+    feature is asked of extract_feature(Population) / extract_feature(Populations) and of extract_feature(tree) for each member; the
+    answers are compared with the definitions: N rows (P blocks of rows), row i = the values of tree i followed by zeros."""
+    name = "c10.poprows"
+
+    MIXES = ["all-single-node", "all-unbranched", "some-single-node", "some-unbranched", "single-node+unbranched", "all-branching"]
+
+    def cases(self, rng, tier, widen):
+        out = []
+        big = tier == "thorough" or widen
+        branching = [s for s in gen.SHAPES if s not in ("single", "chain", "two")]
+        dot = lambda: lattice_tree(rng, 1, "single")
+        line = lambda: lattice_tree(rng, rng.choice([2, 2, 3, 4, 6]), "chain")
+        def bush():
+            for _ in range(50):
+                t = lattice_tree(rng, rng.choice([3, 4, 5, 8, 12] + ([30] if big else [])), rng.choice(branching))
+                if any(t["pids"].count(i) > 1 for i in range(t["n"])):
+                    return t
+            return lattice_tree(rng, 4, "star")
+        def members(mix, m):
+            if mix == "all-single-node":
+                ts = [dot() for _ in range(m)]
+            elif mix == "all-unbranched":
+                ts = [line() for _ in range(m)]
+            elif mix == "all-branching":
+                ts = [bush() for _ in range(m)]
+            else:
+                a, b = {"some-single-node": (dot, bush), "some-unbranched": (line, bush), "single-node+unbranched": (dot, line)}[mix]
+                ts = [a(), b()] + [rng.choice([a, b])() for _ in range(max(0, m - 2))]
+                rng.shuffle(ts)
+            return ts
+        for k in range(3 * len(self.MIXES) if not big else 12 * len(self.MIXES)):
+            mix = self.MIXES[k % len(self.MIXES)]
+            kind = "populations" if (k // len(self.MIXES) + k) % 3 == 2 else "population"      # every mix as a Population (twice) and as Populations
+            if kind == "population":
+                groups = [members(mix, rng.choice([1, 2, 2, 3, 4]) if not mix.startswith(("some", "single-node+")) else rng.choice([2, 3, 4]))]
+            else:
+                groups = [members(mix, rng.choice([2, 3])) for _ in range(rng.randint(2, 3))]
+                if rng.random() < 0.5:
+                    groups[rng.randrange(len(groups))] = groups[0][:1]        # populations of different sizes: rows beyond the trees are zero
+            feats = list(ROW_FEATURES)
+            rng.shuffle(feats)
+            reqs = [{"feat": f, "form": rng.choice(["kw", "kw", "list", "dict"])} for f in feats]
+            out.append({"class": f"{kind}/{mix}", "kind": kind, "groups": groups, "requests": reqs})
+        return out
+
+    def run(self, case):
+        from swcgeom.analysis import extract_feature
+        from swcgeom.core import Population, Populations
+
+        def ask(ex, q):
+            try:
+                if q["form"] == "kw":
+                    a = ex.get(q["feat"])
+                elif q["form"] == "list":
+                    a = ex.get([q["feat"]])[0]
+                else:
+                    a = ex.get({q["feat"]: {}})[q["feat"]]
+                a = np.asarray(a)
+                return {"shape": [int(v) for v in a.shape], "values": a.astype(float).tolist()}
+            except Exception as e:  # noqa: BLE001 - the oracle decides
+                return {"exc": type(e).__name__, "msg": str(e)[:160]}
+
+        trees = [[gen.make_tree(t) for t in g] for g in case["groups"]]
+        with warnings.catch_warnings():
+            warnings.simplefilter("ignore")
+            ex = extract_feature(Population(trees[0])) if case["kind"] == "population" else extract_feature(Populations([Population(g) for g in trees]))
+            answers = [ask(ex, q) for q in case["requests"]]
+            single = [[ask(extract_feature(t), {"feat": q["feat"], "form": "kw"}) for q in case["requests"]] for g in trees for t in g]
+        return {"answers": answers, "single": single}
+
+    def oracle(self, case, res):
+        try:
+            return self._oracle(case, res)
+        except Exception as e:  # noqa: BLE001 - a malformed answer must not crash the check
+            return [("extract-" + str(case.get("kind", "population")), f"the answers of the front end could not be judged ({type(e).__name__}: {e}): {str(res)[:300]}")]
+
+    def _oracle(self, case, res):
+        if not isinstance(res, dict) or "exc" in res or "answers" not in res:
+            r = res if isinstance(res, dict) else {}
+            return [("features-raise", f"{r.get('exc')}: {r.get('msg')} for {case['class']} trees {[t['pids'] for g in case['groups'] for t in g]}")]
+        out = []
+        close = lambda a, b: abs(a - b) <= 2e-5 * max(1.0, abs(b))
+        groups = case["groups"]
+        flat = [t for g in groups for t in g]
+        defs = [definition_vectors(t) for t in flat]
+        num = lambda v: isinstance(v, (int, float)) and not isinstance(v, bool) and math.isfinite(v)
+        isrow = lambda r: isinstance(r, list) and all(num(v) for v in r)
+        desc = f"trees with parents {[t['pids'] for t in flat]}" + (f" in populations of {[len(g) for g in groups]}" if case["kind"] == "populations" else "")
+
+        def judge(row, want, f):
+            """row = the values of the definition (as a multiset, except per-node vectors) followed by zeros only"""
+            if len(row) < len(want) or any(v != 0 for v in row[len(want):]):
+                return False
+            got = row[:len(want)] if f in ROW_ORDERED else sorted(row[:len(want)])
+            return all(close(a, b) for a, b in zip(got, want))
+
+        answers = res["answers"] if isinstance(res["answers"], list) else []
+        if len(answers) != len(case["requests"]):
+            out.append(("extract-" + case["kind"], f"{len(answers)} answers for {len(case['requests'])} requests"))
+        for q, ans in zip(case["requests"], answers):
+            f = q["feat"]
+            key = "extract-" + case["kind"]
+            wants = [d[f] for d in defs]
+            where = f"extract_feature({case['kind']}).get({f!r}) ({q['form']} form), {desc}"
+            if not isinstance(ans, dict) or "exc" in ans or "values" not in ans:
+                a = ans if isinstance(ans, dict) else {}
+                out.append((key + "-raises", f"{where}: raised {a.get('exc')}: {a.get('msg')}; every tree has a (possibly empty) value vector, of lengths {[len(w) for w in wants]}"))
+                continue
+            v, shape = ans["values"], ans.get("shape")
+            if case["kind"] == "population":
+                ok = isinstance(v, list) and len(v) == len(flat) and all(isrow(r) for r in v)
+                rows = v if ok else []
+                expect = f"{len(flat)} rows, one per tree, of the {[len(w) for w in wants]} values of the trees zero-padded to a common width"
+            else:
+                nmax = max(len(g) for g in groups)
+                ok = (isinstance(v, list) and len(v) == len(groups) and all(isinstance(b, list) and len(b) >= len(g) and len(b) == nmax for b, g in zip(v, groups))
+                      and all(isrow(r) for b in v for r in b))
+                rows = []
+                expect = f"{len(groups)} blocks of {nmax} rows, the first {[len(g) for g in groups]} of them the trees' {[len(w) for w in wants]} values zero-padded to a common width"
+                if ok:
+                    for b, g in zip(v, groups):
+                        rows += b[:len(g)]
+                        if any(x != 0 for r in b[len(g):] for x in r):
+                            out.append((key, f"{where}: a row beyond the trees of a population is not zero: {b[len(g):]}"))
+            if not ok:
+                out.append((key, f"{where}: answer of shape {shape} = {str(v)[:120]} — expected {expect}"))
+                continue
+            allrows = rows if case["kind"] == "population" else [r for b in v for r in b]
+            if len({len(r) for r in allrows}) > 1:
+                out.append((key, f"{where}: rows of different widths {[len(r) for r in allrows]}"))
+                continue
+            for i, (row, want) in enumerate(zip(rows, wants)):
+                if not judge(row, want, f):
+                    out.append((key, f"{where}: row of tree {i} is {str(row)[:160]}, the definition gives {str(want)[:160]} followed by zeros (xyz={flat[i]['xyz']})"))
+                    break
+        single = res.get("single") if isinstance(res.get("single"), list) else []
+        for i, (t, per, d) in enumerate(zip(flat, single, defs)):
+            for q, ans in zip(case["requests"], per if isinstance(per, list) else []):
+                f = q["feat"]
+                where = f"extract_feature(tree).get({f!r}), tree with parents {t['pids']}, xyz={t['xyz']}"
+                if not isinstance(ans, dict) or "exc" in ans or "values" not in ans:
+                    a = ans if isinstance(ans, dict) else {}
+                    out.append(("extract-single-raises", f"{where}: raised {a.get('exc')}: {a.get('msg')}; the definition gives {str(d[f])[:160]}"))
+                elif not (isrow(ans["values"]) and len(ans["values"]) == len(d[f]) and judge(ans["values"], d[f], f)):
+                    out.append(("extract-single", f"{where}: answer {str(ans['values'])[:160]} (shape {ans.get('shape')}), the definition gives the {len(d[f])} values {str(d[f])[:160]}"))
+        return out[:4]
+
+    def nontrivial(self, case, res):
+        return len([t for g in case["groups"] for t in g]) >= 2
+
+
+SUITES = [Features(), Angles(), Closed(), ShollNear(), Requests(), PopulationRows()]
 TECHNIQUE = ("Lean 4 theorems about the feature models (tree length = Σ edge lengths = Σ branch lengths via C08's edge partition; path length = path distance of its tip; "
              "counts, branch order, terminal degree, Sholl straddle count read off their definitions; partition asymmetry REGENERATED from lmeasure.py; zero-padded "
              "population rows) + differential correspondence (exact on integer-edge lattice trees) + an oracle computing every quantity from its definition in float64")
